@@ -16,10 +16,10 @@ RULE = ("every node of type network.ip / .domain / .email / .url (.ipv6 counted 
         "a URL / path) comes from the registry tap. distinct_nontrivial = distinct inputs with at least one judged node.")
 ASSUMPTIONS = ["domains.TOP_LEVEL_DOMAINS is the definition of 'registered TLD'", "nodes with out-of-range spans are C03's business (skipped, counted)"]
 EXPECTED_WALL = {"quick": 50, "thorough": 400}
-REQUIRED = {"c10_network.ip": 2000, "c10_network.domain": 2000, "c10_network.email": 500, "c10_network.url": 2000,
-            "c10_urls_with_escapes": 300, "c10_network.ip@find_ips": 300, "c10_network.domain@find_domains": 300,
-            "c10_network.ip@part-of:find_urls": 200, "c10_network.domain@part-of:find_urls": 200,
-            "c10_network.ip@part-of:find_windows_path": 20}
+REQUIRED = {"c10_network.ip": 250, "c10_network.domain": 250, "c10_network.email": 62, "c10_network.url": 250,
+            "c10_urls_with_escapes": 37, "c10_network.ip@find_ips": 37, "c10_network.domain@find_domains": 37,
+            "c10_network.ip@part-of:find_urls": 25, "c10_network.domain@part-of:find_urls": 25,
+            "c10_network.ip@part-of:find_windows_path": 5}
 GENS = ("url", "ioc", "seedmut", "soup", "ctxdec", "layer", "repeat", "cmd")
 
 
